@@ -339,6 +339,25 @@ func readAll(l *ReqLog, field string, ups []*graphql.Upload) []*tx.UploadInfo {
 				ok = false
 				seen.Why = fmt.Sprintf("re-read after Seek: %d bytes, err %v, hash equal %v", n2, err, hex.EncodeToString(h2.Sum(nil)) == sum)
 			}
+			// io.Seeker: seeking to a position before the start is an error, whatever whence is used
+			// and whichever reader (in memory, spilled to disk) backs the upload; the reader stays usable
+			if pos, err := u.File.Seek(-(s.n + 8), io.SeekEnd); err == nil {
+				ok = false
+				seen.Why = fmt.Sprintf("Seek(%d,End) on a %d byte upload succeeded (position %d)", -(s.n + 8), s.n, pos)
+			}
+			if _, err := u.File.Seek(0, io.SeekStart); err == nil {
+				if pos, err := u.File.Seek(-3, io.SeekCurrent); err == nil {
+					ok = false
+					seen.Why = fmt.Sprintf("Seek(-3,Current) at offset 0 succeeded (position %d)", pos)
+				}
+			}
+			if _, err := u.File.Seek(0, io.SeekStart); err != nil {
+				ok = false
+				seen.Why = "Seek(0,Start) after a refused seek: " + err.Error()
+			} else if n3, err := io.Copy(io.Discard, u.File); err != nil || n3 != s.n {
+				ok = false
+				seen.Why = fmt.Sprintf("read after a refused seek: %d bytes, %v", n3, err)
+			}
 			seen.Reread, info.Reread = ok, ok
 		}
 		l.mu.Lock()
